@@ -742,20 +742,29 @@ def comb_graph(r, N, early_stop=False, with_merge=False):
         g.add(x, ("b", 0 if early_stop else r.below(3)), (cs[i],), r.choice(["a", "a", "q"]))
         ss.append(x)
     tail = []
+    top = []
+    if early_stop:
+        # a head on top of the chain with the largest key: once the side heads are processed it is alone,
+        # the braid stops and every convergence entry (one arrival left each) stays behind, spilled blocks included
+        t = new()
+        g.add(t, ("b", 9), (cs[-1],))
+        top = [t]
     if with_merge:
-        k = N // 2
-        m = (1 << 62) + new()
-        g.add(m, ("m",), (ss[k], ss[k + 1]))
-        c = new()
-        g.add(c, ("b", 2), (m,))
-        tail = [("add", [m, c]), ("commit",)]
+        # small braids all over the max_cut range of the first (spilled) braid
+        for k in (2, N // 4, N // 2, (3 * N) // 4, N - 3):
+            m = (1 << 62) + new()
+            g.add(m, ("m",), (ss[k], ss[k + 1]))
+            c = new()
+            g.add(c, ("b", 2), (m,))
+            tail.append(("add", [m, c]))
+        tail.append(("commit",))
     pre = [("add", [init, d])]
-    h_chain = pre + [("add", cs), ("add", ss), ("commit",)] + tail
+    h_chain = pre + [("add", cs + top), ("add", ss), ("commit",)] + tail
     inter = []
     for i in range(N):
         inter += [cs[i], ss[i]]
-    h_inter = pre + [("add", inter), ("commit",)] + tail
-    return g, [h_inter, h_chain]
+    h_inter = pre + [("add", inter + top), ("commit",)] + tail
+    return g, ([h_inter] if with_merge else [h_inter, h_chain])
 
 
 def spill_graph(r, K, tail):
@@ -869,7 +878,7 @@ def run_braid_check(ctx, focus):
         # cheap spill scenarios that also run in the quick tier (memory backend): many convergence points
         # pending at once with descending max_cut, and reuse of the convergence storage by a later braid
         combs = [("comb300", comb_graph(r, 300)), ("comb600", comb_graph(r, 600)),
-                 ("comb_reuse", comb_graph(r, 300, early_stop=True, with_merge=True))]
+                 ("comb_reuse", comb_graph(r, 900, early_stop=True, with_merge=True))]
     for (name, (cg, chist)) in combs:
         graphs.append((name, cg, None, {"style": "spill_comb", "histories": chist, "mem_only": True,
                                         "quiet": sum(1 for x in cg.order if cg.data(x) == "q")}))
